@@ -64,7 +64,8 @@ def run(R, P="C09"):
             va, kw = a.vararg.arg, a.kwarg.arg
             site = R.site(m)
             key = m.qualname
-            stored = [n for n in q.scope_nodes(m.node) if isinstance(n, ast.Name) and isinstance(n.ctx, ast.Store) and n.id in (va, kw)]
+            stored = [n for n in q.scope_nodes(m.node) if isinstance(n, ast.Name) and isinstance(n.ctx, ast.Store) and n.id in (va, kw)
+                      and not (isinstance(getattr(n, "_parent", None), ast.Assign) and q.src(n._parent.value) in ("(self.instance,) + %s" % va,))]
             R.check(not stored, P + ".FORWARD", key + ":unmodified", site,
                     "%s does not rebind %s/%s" % (mname, va, kw), "%s rebinds its %s/%s before forwarding them" % (mname, va, kw))
             cfg = cfg_of(m)
@@ -150,29 +151,28 @@ def run(R, P="C09"):
                         "the pair binder calls the decorator without the instance (sync_fn was bound by __get__)",
                         "the pair binder's __call__ returns %s: the instance is added a second time or the arguments change" % rs)
                 continue
-            ifs = [s for s in m.node.body if isinstance(s, ast.If)]
-            R.need(len(ifs) == 1, "idiom: binder method %s is not a single if/else on self.instance" % m.qualname)
-            k, s, pos = q.atom_test(ifs[0].test)
+            target = "self.decorator." + mname
+            form = binder_form(m, target)
+            R.need(form is not None, "idiom: binder method %s is neither an if/else on self.instance nor a conditional expression" % m.qualname)
+            test, none_args, inst_args, kw_ok = form
+            k, s, pos = q.atom_test(test)
             R.check(k == "isnone" and s == "self.instance", P + ".BINDERS", m.qualname + ":test", site,
                     "the binder tests `self.instance is None` (identity)",
                     "the binder tests `%s` instead of `self.instance is None`: a bound instance that is falsy (empty container, zero-like object) "
-                    "is treated as unbound and loses its self argument" % q.src(ifs[0].test))
-            none_arm, inst_arm = (ifs[0].body, ifs[0].orelse) if (k == "isnone" and pos) else (ifs[0].orelse, ifs[0].body)
-            if k != "isnone":
-                # truthiness form `if self.instance:` -> body is the instance arm
-                none_arm, inst_arm = (ifs[0].orelse, ifs[0].body) if pos else (ifs[0].body, ifs[0].orelse)
-            def arm_call(arm):
-                cs = [c for st in arm for c in q.calls(st) if (q.call_name(c) or "").startswith("self.decorator.")]
-                return cs
-            nc, ic = arm_call(none_arm), arm_call(inst_arm)
-            target = "self.decorator." + mname
-            okn = len(nc) == 1 and q.call_name(nc[0]) == target and [q.src(x) for x in nc[0].args] == ["*args"] and forwards(nc[0], "args", "kwargs") == "full"
-            oki = len(ic) == 1 and q.call_name(ic[0]) == target and [q.src(x) for x in ic[0].args] in (["self.instance", "*args"], ["*(self.instance,) + args"], ["*((self.instance,) + args)"]) \
-                and forwards(ic[0], "args", "kwargs") == "full"
+                    "is treated as unbound and loses its self argument" % q.src(test))
+            if not (k == "isnone" and pos):
+                # `is not None` / truthiness: the first arm is the instance arm
+                none_args, inst_args = inst_args, none_args
+                if k == "isnone" and not pos:
+                    pass
+                elif k != "isnone" and not pos:
+                    none_args, inst_args = inst_args, none_args
+            okn = none_args == ["*args"] and kw_ok
+            oki = inst_args in (["self.instance", "*args"], ["*(self.instance,) + args"], ["*((self.instance,) + args)"]) and kw_ok
             R.check(okn, P + ".BINDERS", m.qualname + ":unbound", site, "unbound: %s(*args, **kwargs)" % target,
                     "the unbound arm is not %s(*args, **kwargs)" % target)
             R.check(oki, P + ".BINDERS", m.qualname + ":bound", site, "bound: %s(self.instance, *args, **kwargs) - instance first and once" % target,
-                    "the bound arm does not pass the instance exactly once, first: %s" % (q.src(ic[0]) if ic else "no call"))
+                    "the bound arm does not pass the instance exactly once, first: %s" % inst_args)
     R.need(n_b >= 4, "fewer binder methods than confirmed by hand (%d < 4)" % n_b)
     # every decorator class that defines asynq uses a binder that defines asynq
     for cq in DECORATOR_CLASSES:
@@ -240,7 +240,11 @@ def run(R, P="C09"):
     for cq in DECORATOR_CLASSES:
         cls = repo.cls(cq)
         ip = cls.find_method("is_pure_async_fn")
-        R.need(ip is not None, "anchor vanished: %s.is_pure_async_fn" % cq)
+        if ip is None:
+            R.violation(P + ".CLASSIFY", cq, R.site(cls.module, cls.node),
+                        "%s defines no is_pure_async_fn(): is_pure_async_fn(obj) falls through to the wrapped function, so an object that is called like an "
+                        "impure async function can be classified as pure (async_call then calls it directly and gets a plain value instead of a future)" % cls.name)
+            continue
         rs = [n.value for n in ast.walk(ip.node) if isinstance(n, ast.Return)]
         const = rs[0].value if len(rs) == 1 and isinstance(rs[0], ast.Constant) else None
         has_asynq = cls.find_method("asynq") is not None
@@ -280,3 +284,40 @@ def run(R, P="C09"):
     dedup_key_rule(R, P + ".DEDUP-KEY")
     R.require_min(P + ".FORWARD", 45)
     R.require_min(P + ".BINDERS", 12)
+
+
+def binder_form(m, target):
+    """(test expr, args of the first arm, args of the second arm, kwargs forwarded) for a binder
+    method written as `if T: return D(A1) else: return D(A2)` or `return D(*(X if T else Y), **kwargs)`."""
+    body = [s for s in m.node.body if not (isinstance(s, ast.Expr) and isinstance(s.value, ast.Constant))]
+    ifs = [s for s in body if isinstance(s, ast.If)]
+    if len(ifs) == 1 and len(body) == 1:
+        def arm(stmts):
+            cs = [c for st in stmts for c in q.calls(st) if q.call_name(c) == target]
+            if len(cs) != 1:
+                return None, False
+            return [q.src(x) for x in cs[0].args], forwards(cs[0], "args", "kwargs") == "full"
+        a, ka = arm(ifs[0].body)
+        b, kb = arm(ifs[0].orelse)
+        if a is None or b is None:
+            return None
+        return ifs[0].test, a, b, ka and kb
+    if len(ifs) == 1 and len(body) == 2 and body[0] is ifs[0] and not ifs[0].orelse and isinstance(body[1], ast.Return):
+        tail = [c for c in q.calls(body[1]) if q.call_name(c) == target]
+        if len(tail) == 1:
+            inner = [c for st in ifs[0].body for c in q.calls(st) if q.call_name(c) == target]
+            if len(inner) == 1 and isinstance(ifs[0].body[-1], ast.Return):
+                # if T: return D(A1)   /   return D(A2)
+                return ifs[0].test, [q.src(x) for x in inner[0].args], [q.src(x) for x in tail[0].args], \
+                    forwards(inner[0], "args", "kwargs") == "full" and forwards(tail[0], "args", "kwargs") == "full"
+            if not inner and len(ifs[0].body) == 1 and isinstance(ifs[0].body[0], ast.Assign) and q.src(ifs[0].body[0].targets[0]) == "args":
+                # if T: args = <expr>   /   return D(*args, **kwargs)
+                if [q.src(x) for x in tail[0].args] == ["*args"]:
+                    return ifs[0].test, ["*" + q.src(ifs[0].body[0].value)], ["*args"], forwards(tail[0], "args", "kwargs") == "full"
+    if len(body) == 1 and isinstance(body[0], (ast.Return, ast.Expr)) and isinstance(body[0].value, ast.Call) and q.call_name(body[0].value) == target:
+        c = body[0].value
+        if len(c.args) == 1 and isinstance(c.args[0], ast.Starred) and isinstance(c.args[0].value, ast.IfExp):
+            ie = c.args[0].value
+            kw = any(k.arg is None and q.src(k.value) == "kwargs" for k in c.keywords)
+            return ie.test, ["*" + q.src(ie.body)], ["*" + q.src(ie.orelse)], kw
+    return None
